@@ -171,6 +171,14 @@ def attribute(meta, line):
     for f in meta['fns']:
         if f['lines'][0] <= line <= f['lines'][1]:
             best = f
+    if best is None:
+        # template-written proof text (lemma / law): attribute to the innermost enclosing module
+        inner = None
+        for mname, (a, b) in meta.get('module_lines', {}).items():
+            if b is not None and a <= line <= b and (inner is None or a >= inner[1]):
+                inner = (mname, a)
+        if inner:
+            best = {'id': 'proof.%s' % inner[0], 'anchor': 'template proof text in module %s' % inner[0], 'mode': 'lemma', 'lines': [line, line]}
     return best
 
 
